@@ -344,6 +344,8 @@ type realNode struct {
 	trans *bnet.InmemTransport
 }
 
+var realNodeSuspendLimit = 5
+
 func newRealNodes(rng *rand.Rand, n int, syncLimit int) []*realNode {
 	ps := newParticipants(rng, n)
 	pl := []*peers.Peer{}
@@ -359,7 +361,7 @@ func newRealNodes(rng *rand.Rand, n int, syncLimit int) []*realNode {
 		conf.SyncLimit = syncLimit
 		conf.JoinTimeout = 50 * time.Millisecond
 		conf.HeartbeatTimeout = 10 * time.Millisecond
-		conf.SuspendLimit = 5
+		conf.SuspendLimit = realNodeSuspendLimit
 		_, trans := bnet.NewInmemTransport(pl[i].NetAddr)
 		a := newApp()
 		prox := inmem.NewInmemProxy(a, quiet())
